@@ -83,6 +83,14 @@ func parseTimeRange(
 		since = time.Duration(d)
 	}
 
+	// A flag that is given must have a value: only an absent flag gets the default.
+	if v, ok := endParam.Get(); ok && v == "" {
+		return start, end, errors.New("parse end: empty value")
+	}
+	if v, ok := startParam.Get(); ok && v == "" {
+		return start, end, errors.New("parse start: empty value")
+	}
+
 	endValue := endParam.Or("")
 	end, err = parseTimestamp(endValue, now)
 	if err != nil {
